@@ -1250,7 +1250,9 @@ package formula
 //@   tags [C04,C03]
 //@   requires wfv(v)
 //@   panics never
-//@   ensures[C04] num(v) ==> result == box(d2f(nval(v)), float64)
+//@   ensures[C04] num(v) && dfinite(nval(v)) ==> result == box(dnear(nval(v)), float64)
+//@   ensures[C04] num(v) && dnan(nval(v)) ==> result == box(fNaN(), float64)
+//@   ensures[C04] num(v) && dinf(nval(v)) ==> result == box(fInf(dsignbit(nval(v))), float64)
 //@   ensures !num(v) ==> result == v
 
 //@ func formatNilValue
@@ -1823,7 +1825,7 @@ package formula
 //@   panics never
 //@   ensures[C03] (result1 != nil ==> result0 == nil) && rpost(r)
 //@   ensures[C20,C07] world == step(old(world), v) && result1 == errOf(old(world), v)
-//@   ensures[C04] result1 == nil && num(valOf(old(world), v)) ==> result0 == box(d2f(nval(valOf(old(world), v))), float64)
+//@   ensures[C04] result1 == nil && num(valOf(old(world), v)) && dfinite(nval(valOf(old(world), v))) ==> result0 == box(dnear(nval(valOf(old(world), v))), float64)
 //@   ensures[C20] result1 == nil && !num(valOf(old(world), v)) ==> result0 == valOf(old(world), v)
 
 // ---------------------------------------------------------------------------
